@@ -26,6 +26,7 @@ type Env struct {
 	specFile string // contract file of the clause being evaluated (for type names)
 	visLoc, visHeap string // ghost visited set of the enclosing range-over-map loop
 	addrOf func(name string) (Val, bool) // address of a cell-backed local variable
+	callArgs []Val // arguments of the call an assertion is anchored at (arg(k))
 }
 
 func (e *Env) clone() *Env {
@@ -660,6 +661,16 @@ func (vc *VC) evalSpecCall(env *Env, x *SCall) Val {
 			return Val{T: vc.mapLen(env.st, v), Typ: intT}
 		}
 		return vc.specErr("len of %s", v.Typ)
+	case "arg":
+		// arg(k): the k-th argument (0-based, receiver first for methods) of the
+		// call instruction the assertion is anchored at
+		if n, ok := x.Args[0].(*SInt); ok && env.callArgs != nil {
+			k, _ := strconv.Atoi(n.V)
+			if k >= 0 && k < len(env.callArgs) {
+				return env.callArgs[k]
+			}
+		}
+		return vc.specErr("arg(k): not anchored at a call with that many arguments")
 	case "addr":
 		// addr(x): the address of the local variable x (a variable that lives in a memory cell)
 		if id, ok := x.Args[0].(*SIdent); ok && env.addrOf != nil {
@@ -742,6 +753,27 @@ func (vc *VC) evalSpecCall(env *Env, x *SCall) Val {
 			return Val{T: And(App("(_ is L)", App("if.ptr", v.T)), App(">", App("rt", App("if.ptr", v.T)), env.old.Top)), Typ: boolT}
 		}
 		return vc.specErr("fresh of %s", v.Typ)
+	case "freshsince":
+		// freshsince(N, x): x was allocated after loop N was entered
+		n, isInt := x.Args[0].(*SInt)
+		if !isInt || len(x.Args) != 2 {
+			return vc.specErr("freshsince(N, x): N must be a literal loop ordinal")
+		}
+		ord, _ := strconv.Atoi(n.V)
+		pre := vc.loopPre[ord]
+		if pre == nil {
+			return vc.specErr("freshsince(%d, x): loop %d has not been entered at this point", ord, ord)
+		}
+		v := arg(1)
+		switch vc.sorts.SortOf(v.Typ) {
+		case "Loc":
+			return Val{T: And(App("(_ is L)", v.T), App(">", App("rt", v.T), pre.Top)), Typ: boolT}
+		case "Slice":
+			return Val{T: And(App("(_ is L)", App("sl.base", v.T)), App(">", App("rt", App("sl.base", v.T)), pre.Top)), Typ: boolT}
+		case "Iface":
+			return Val{T: And(App("(_ is L)", App("if.ptr", v.T)), App(">", App("rt", App("if.ptr", v.T)), pre.Top)), Typ: boolT}
+		}
+		return vc.specErr("freshsince of %s", v.Typ)
 	case "base":
 		return Val{T: App("sl.base", arg(0).T), Typ: types.Typ[types.UnsafePointer]}
 	case "notypednil":
@@ -1217,7 +1249,7 @@ func (f *frame) callModPats(cc *ssa.CallCommon, li *loopInfo, all func(string), 
 	if callee == nil {
 		if cands := funcCandidates(cc.Value, map[ssa.Value]bool{}); len(cands) > 0 {
 			for _, c := range cands {
-				spec := vc.Eng.Spec.Funcs[FuncName(c)]
+				spec := vc.calleeSpec(FuncName(c))
 				if spec == nil || !spec.HasAssign {
 					all("call through func value to " + FuncName(c) + " without assigns clause")
 					return nil
@@ -1238,7 +1270,7 @@ func (f *frame) callModPats(cc *ssa.CallCommon, li *loopInfo, all func(string), 
 	if ps, ok := stdSpecMods(f, full, cc); ok {
 		return ps
 	}
-	if spec := vc.Eng.Spec.Funcs[FuncName(callee)]; spec != nil {
+	if spec := vc.calleeSpec(FuncName(callee)); spec != nil {
 		if !spec.HasAssign {
 			all("call to " + FuncName(callee) + " whose contract has no assigns")
 			return nil
@@ -1272,7 +1304,7 @@ func (f *frame) typeLevelPats(callee *ssa.Function, c *Clause) []modPat {
 	for _, p := range callee.Params {
 		env.vars[p.Name()] = Val{T: "Null", Typ: p.Type()}
 	}
-	_, t, steps, ok := vc.specAddr(env, c.Expr)
+	loc, t, steps, ok := vc.specAddr(env, c.Expr)
 	if !ok {
 		var ps []modPat
 		for _, s := range HeapSorts {
@@ -1280,13 +1312,18 @@ func (f *frame) typeLevelPats(callee *ssa.Function, c *Clause) []modPat {
 		}
 		return ps
 	}
+	// a ghost variable is one fixed cell: keep it exact
+	base := ""
+	if id, isId := c.Expr.(*SIdent); isId && vc.Eng.Spec.Ghosts[id.Name] != nil {
+		base = loc
+	}
 	var pats []modPat
 	for _, lf := range vc.leaves(t) {
 		ss := append(append([]step{}, steps...), lf.steps...)
 		for i := range ss {
 			ss[i].idx = ""
 		}
-		pats = append(pats, modPat{sort: lf.sort, steps: ss})
+		pats = append(pats, modPat{sort: lf.sort, base: base, steps: ss})
 	}
 	return pats
 }
